@@ -500,7 +500,7 @@ Definition rec_plain : urec :=
      k_host := bs ":0"; k_exit := [0; 0; 0; 0]; k_session := [0; 0; 0; 0]; k_sec := 1700000000;
      k_usec := [1; 2; 3; 4]; k_addr := repeat 0 16; k_unused := repeat 0 20 |}.
 
-(* code as it is: a user name filling its 32 bytes comes back with the host appended *)
+(* legacy code: a user name filling its 32 bytes comes back with the host appended *)
 Lemma users_legacy_fullwidth_refuted : exists rs,
   forallb wf_urec rs = true /\
   exists rows, users_legacy (k_utmp_file rs) = MOk rows /\ rows <> spec_users rs /\
